@@ -1159,11 +1159,6 @@ class RemoveVariable(Contract):
     modifies = ("self",) + JOINT_GHOSTS
     raises = {"KeyError": lambda c: z3.Not(DS2.V(c.old.self).has(c.old.name))}
 
-    def finding_regions(self, c):
-        s, i = c.old.self, z3.Int("i!lr")
-        u = UV(s)
-        return {"last-uncertain-variable-removed": z3.And(u.n == 1, u.elems[0] == c.old.name)}
-
     def requires(self, c):
         s = c.old.self
         return DS2.wf(s) + ps_wf(s)
@@ -1188,7 +1183,8 @@ class RemoveVariable(Contract):
             ("distributions", z3.ForAll([k], z3.And(d1.has(k) == z3.And(d0.has(k), z3.Or(k != nm, z3.Not(was))), z3.Implies(d1.has(k), d1.get(k) == d0.get(k))))),
             ("deterministic:joint-distribution-kept", z3.Implies(z3.Not(was), s1.distribution == s0.distribution)),
         ] + [(f"uncertain:{l}", z3.Implies(z3.And(was, u1.n > 0), f)) for l, f in joint_is_that_of(c, s1)] + [
-            # "its samples ... are consistent with these laws": once no uncertain variable is left there is no law to sample (None is the value __init__ gives)
+            # "its samples ... are consistent with these laws": once no uncertain variable is left there is no law to sample (None is the value __init__ gives;
+            # repaired in /repo 910a44a: `distribution` used to keep describing the removed variable, which compute_samples went on sampling)
             ("uncertain:no-joint-distribution-of-a-removed-variable-survives", z3.Implies(z3.And(was, u1.n == 0), s1.distribution == val_none)),
         ]
 
